@@ -27,6 +27,9 @@ pub struct Lexer {
     start_column: u32,
     pending_semicolon: bool,
     nesting_depth: u32,
+    // ( [ depth of the enclosing code, saved at each `{` and restored at its `}`:
+    // newlines separate the statements of a block even when the block is inside ( or [
+    brace_stack: Vec<u32>,
 }
 
 impl Lexer {
@@ -42,6 +45,7 @@ impl Lexer {
             start_column: 1,
             pending_semicolon: false,
             nesting_depth: 0,
+            brace_stack: Vec::new(),
         }
     }
 
@@ -58,6 +62,7 @@ impl Lexer {
             start_column: 1,
             pending_semicolon: false,
             nesting_depth: 0,
+            brace_stack: Vec::new(),
         }
     }
 
